@@ -12,6 +12,15 @@ theorem pres_shCl {s s' : St} {a : Act} (hI : Inv s) (h : step .repaired s a = s
   | fire t0 =>
     simp only [step] at h
     (repeat' (split at h)) <;> (try cases h) <;> (simp only [St.setPc, St.setObj]; (have i_shCl := hI.shCl; have i_wrA := hI.wrA; have i_refs := hI.refs; grind [setsNil, wslot, wactive, PC.ref]))
+  | corrupt d =>
+    simp only [step] at h
+    (repeat' (split at h)) <;> (try cases h) <;> (simp only []; (have i_shCl := hI.shCl; have i_wrA := hI.wrA; have i_refs := hI.refs; grind [setsNil, wslot, wactive, PC.ref]))
+  | block d =>
+    simp only [step] at h
+    (repeat' (split at h)) <;> (try cases h) <;> (simp only []; (have i_shCl := hI.shCl; have i_wrA := hI.wrA; have i_refs := hI.refs; grind [setsNil, wslot, wactive, PC.ref]))
+  | repair d =>
+    simp only [step] at h
+    (repeat' (split at h)) <;> (try cases h) <;> (simp only []; (have i_shCl := hI.shCl; have i_wrA := hI.wrA; have i_refs := hI.refs; grind [setsNil, wslot, wactive, PC.ref]))
   | run t0 =>
     simp only [step] at h
     split at h
